@@ -557,6 +557,32 @@ func TestC04(t *testing.T) {
 		// developer payloads beyond its scratch buffer): the verdict on the
 		// valid file under every chunking, and a sample of bursts
 		bigCases := 0
+		// data sizes at and next to multiples of the decoder's 4096-byte
+		// buffer: valid files must pass every integrity entry point
+		{
+			base := &fitmodel.Stream{HeaderSize: 14, Proto: 0x20, Recs: []fitmodel.Rec{
+				{IsDef: true, Global: 0, Fields: []fitmodel.FieldDef{{Num: 0, Size: 1, Base: 0}}}, {Raw: []byte{4}},
+				{IsDef: true, Local: 1, Global: 20, Fields: []fitmodel.FieldDef{{Num: 253, Size: 4, Base: 0x86}, {Num: 3, Size: 1, Base: 2}}},
+				{Local: 1, Raw: []byte{1, 2, 3, 4, 90}}, {Local: 1, Raw: []byte{2, 2, 3, 4, 91}},
+			}}
+			na := int64(0)
+			for _, blk := range []int{4096, 8192, 32768} {
+				for delta := -2; delta <= 1; delta++ {
+					s, ok := gen.SlideTo(base, blk+delta-gen.TailLen(base))
+					if !ok {
+						continue
+					}
+					b := s.Bytes()
+					na++
+					if msg, ok := checkValid(b); !ok {
+						rec.Fail("aligned", "", fmt.Sprintf("data size %d: %s", blk+delta, msg), corruptCase{File: hex.EncodeToString(b)})
+					}
+				}
+			}
+			rec.Eval("aligned", na)
+			rec.NonTrivialEnum(na)
+		}
+
 		hx.RapidCheck(t, rec, "big-files", func(rt *rapid.T, fail func(string, string, any)) {
 			if bigCases >= hx.Pick(12, 150) {
 				return
